@@ -13,13 +13,17 @@ def plugin_pools(rng, per_plugin):
                ("Debug", c06.P()), ("Clone/Copy", c07.P(100)), ("Default", c08.P()), ("Deref/DerefMut", c09.P()), ("Into", c10.P()),
                ("union", c20.P())]
     out = []
+    shared = []        # Debug definitions without companion items: also compiled several to a module (see below)
     for label, p in plugins:
         defs = []
         # Debug has by far the most shape x attribute branches
         for i in range(per_plugin * (3 if label == "Debug" else 1)):
             td = p.make(random.Random(rng.random()), i)
             defs.append((i, td.render()))
+            if label == "Debug" and not td.extra_items:
+                shared.append(td.render())
         out.append((label, p, defs))
+    plugin_pools.shared = shared
     return out
 
 
@@ -465,6 +469,23 @@ def main(tier):
         path = os.path.join(work, "a_%s.rs" % "".join(c for c in label if c.isalnum()))
         open(path, "w").write("".join(parts))
         jobs.append((label, path, line_map, by_id))
+    # pool A': Debug definitions eight to a module - helper items a derive emits next to its impl (rather than inside a
+    # function body) meet those of the neighbouring derives there
+    sh = getattr(plugin_pools, "shared", [])
+    if sh:
+        parts = ["#![allow(unused_imports)]\n" + gen.PRELUDE]
+        cur = parts[0].count("\n") + 1
+        line_map, by_id = [], {}
+        for g in range(0, len(sh), 8):
+            m = "pub mod s%d {\n use super::prelude::*;\n%s\n}\n" % (g, "\n".join(sh[g:g + 8]))
+            n = m.count("\n")
+            line_map.append((cur, cur + n, 900000 + g))
+            by_id[900000 + g] = "\n".join(sh[g:g + 8])
+            cur += n
+            parts.append(m)
+        path = os.path.join(work, "a_shared.rs")
+        open(path, "w").write("".join(parts))
+        jobs.append(("Debug definitions sharing a module", path, line_map, by_id))
     # pool B: generic definitions
     gdefs, gmeta = [], {}
     for i in range(n_generic):
@@ -534,7 +555,7 @@ def main(tier):
     tie["extra"]["diagnostics"] = dict(hist)
     tie["failing"] = tie["failing"][:4]
     tie["broken"] = tie["broken"][:4]
-    tie["rule"] = ("pool A: %d definitions from each of the ten behavioural generators (three times as many for Debug) (all attribute spellings, noise traits); pool B: %d generic "
+    tie["rule"] = ("pool A: %d definitions from each of the ten behavioural generators (three times as many for Debug) (all attribute spellings, noise traits), the Debug definitions without companion items once more eight to a module; pool B: %d generic "
                    "definitions (struct named/tuple/unit, enums with 1-4 variants, single-variant and empty enums; lifetime, 1-2 type and a const "
                    "parameter, inline `: Sized` bounds and where-clauses, raw identifiers r#type / r#match, #[repr(u8|i16|C|align|u8, align|C, u8)], "
                    "explicit discriminants; random trait sets closed under supertraits incl. Copy; ignore / rank / name / named_field / Default(new) "
